@@ -2630,7 +2630,9 @@ save_ed_buffer (object_t * who)
           fname = stmp->u.string;
           if (*fname == '/')
             fname++;
-          dowrite (1, P_LASTLN, fname, 0);
+          /* the master chooses the name; still never leave the mudlib */
+          if (legal_path (fname))
+            dowrite (1, P_LASTLN, fname, 0);
         }
     }
   free_ed_buffer (who);
